@@ -206,3 +206,32 @@ def enter_set(P: Node, explicit) -> Set[str]:
                     expand(c)
     expand(P)
     return out
+
+
+def legal_nodes(machine, cfg_ids) -> Optional[str]:
+    """legal() over the library's own node tree (used where the harness has no generator tree)."""
+    cfg = set(cfg_ids)
+    if machine.id not in cfg:
+        return "root-inactive"
+
+    def walk(n):
+        yield n
+        for c in n.states.values():
+            yield from walk(c)
+    by_id = {n.id: n for n in walk(machine)}
+    for sid in cfg:
+        n = by_id.get(sid)
+        if n is None:
+            return "unknown-state:" + sid
+        if n.type == "history":
+            return "history-active:" + sid
+        if n.parent is not None and n.parent.id not in cfg:
+            return "orphan:" + sid
+        if n.type == "compound":
+            k = sum(1 for c in n.states.values() if c.id in cfg)
+            if k != 1:
+                return "compound-%d-children:%s" % (k, sid)
+        elif n.type == "parallel":
+            if any(c.type != "history" and c.id not in cfg for c in n.states.values()):
+                return "parallel-missing-region:" + sid
+    return None
